@@ -785,4 +785,37 @@ def assocIndex (idx : AExpr) : Res Bool :=
   | .word _ => .ok true
   | _ => .ok false
 
+/-! ### namerefs: `expand.Variable.Resolve` and the `Kind` switch of `Runner.assignVal` -/
+
+/-- `expand.ValueKind`. -/
+inductive VKind where
+  | unknown | string | nameRef | indexed | assoc | keepValue
+  deriving DecidableEq, Repr
+
+/-- The part of `expand.Variable` that `Resolve` looks at. -/
+structure Var where
+  kind : VKind
+  str : Bytes
+  deriving DecidableEq, Repr
+
+/-- `maxNameRefDepth`. -/
+def maxNameRefDepth : Nat := 100
+
+/-- The loop of `Variable.Resolve`: follow namerefs at most `fuel` times; a non-nameref is returned
+    at once, and when the budget is used up (cycle, self reference, chain of 100 or more) the result
+    is the zero `Variable{}`, **not** the nameref last looked at. -/
+def resolveLoop (env : Bytes → Var) : Nat → Bytes → Var → Bytes × Var
+  | 0, name, _ => (name, ⟨.unknown, []⟩)
+  | fuel + 1, name, v =>
+    if v.kind ≠ .nameRef then (name, v) else resolveLoop env fuel v.str (env v.str)
+
+def resolve (env : Bytes → Var) (v : Var) : Bytes × Var :=
+  resolveLoop env maxNameRefDepth [] v
+
+/-- The `switch prev.Kind` of `Runner.assignVal` for an appending array assignment `a+=(…)`: its
+    `default:` branch is `panic("unexpected conversion of kind %d")`.  `prev` is a `Resolve` result. -/
+def appendKind : VKind → Res Unit
+  | .unknown | .string | .indexed | .assoc => .ok ()
+  | .nameRef | .keepValue => .panic
+
 end ShVerif.C28
